@@ -201,6 +201,23 @@ def check_pivot_choice(ctx, res, rule: str) -> int:
     if not subs:
         res.note("find_pivot_row reads no row element in a recognised form; pivot choice not evaluated")
         return 0
+    # the pivot is chosen by magnitude (partial pivoting): after one elimination step an entry that is 0 in exact arithmetic
+    # is float noise (1e-16); a search that takes the FIRST row whose leading entry is `!= 0` picks that noise as pivot
+    by_magnitude = any(isinstance(c, ast.Call) and isinstance(c.func, ast.Name) and c.func.id in ("max", "sorted", "min")
+                       for c in ast.walk(fi.node)) and any(isinstance(c, ast.Call) and isinstance(c.func, ast.Name) and c.func.id == "abs"
+                                                            for c in ast.walk(fi.node))
+    first_hit = [r for lp in ast.walk(fi.node) if isinstance(lp, ast.For) for r in ast.walk(lp)
+                 if isinstance(r, ast.Return) and r.value is not None and not (isinstance(r.value, ast.Constant) and r.value.value is None)]
+    if first_hit and not by_magnitude:
+        res.ob(rule, fi.where(first_hit[0]), "find_pivot_row chooses the pivot by magnitude", False,
+               "returns the first row that passes the test: `%s`" % txt(first_hit[0]))
+        res.violation(rule, fi, first_hit[0],
+                      "find_pivot_row returns the first row whose leading entry passes an exact `!= 0` test instead of the row with the "
+                      "largest absolute leading entry: after one elimination step an entry that is 0 in exact arithmetic is float noise "
+                      "(1e-16) in oblique position, is taken as the pivot, and the elimination divides by it -- crossing lines are "
+                      "reported as not meeting, or Solution() raises", construct="find_pivot_row: first non-zero row as pivot")
+    elif by_magnitude:
+        res.ob(rule, fi.where(), "find_pivot_row chooses the pivot by magnitude", True, "max / sorted over abs(leading entry)")
     n = 0
     for sb in subs:
         k = const_num(sb.slice)
@@ -215,4 +232,105 @@ def check_pivot_choice(ctx, res, rule: str) -> int:
                           "choosing or ranking rows by another column can select a row whose pivot element is float noise (or zero), and "
                           "the elimination divides by it -- intersections in oblique position lose points or raise" % txt(sb),
                           construct="find_pivot_row column `%s`" % txt(sb))
+    return n
+
+
+
+def check_general_form_point(ctx, res, rule: str) -> int:
+    """Plane(a, b, c, d) denotes a x + b y + c z = d; (k a, k b, k c, k d) denotes the same plane for every k != 0, so the
+    point stored for it must not change when the four numbers are scaled together: degree 0.  Degrees: a, b, c, d: 1;
+    Vector(a, b, c): 1; normalized(): 0; products add, quotients subtract; the solution of `solve([[a, b, c, d]])` is a point of
+    the plane whatever the scale: 0.  `Point(n * d)` with the unit normal n has degree 1: it lies on the plane only when
+    (a, b, c) happens to have length 1."""
+    try:
+        gf = ctx.repo.cls("Plane").lookup("_init_gf")
+    except Exception:
+        gf = None
+    if gf is None or len(gf.params) != 5:
+        res.note("Plane has no _init_gf(self, a, b, c, d); the general form is not evaluated")
+        return 0
+    coef = set(gf.params[1:])
+    sn = gf.self_name
+    from .astutil import single_defs
+    defs = single_defs(gf.node, gf.params)
+    fields = {}
+    for st in ast.walk(gf.node):
+        if isinstance(st, ast.Assign) and len(st.targets) == 1 and isinstance(st.targets[0], ast.Attribute) \
+                and isinstance(st.targets[0].value, ast.Name) and st.targets[0].value.id == sn:
+            fields[st.targets[0].attr] = st.value
+
+    def deg(e, depth=0):
+        if depth > 8:
+            return None
+        if isinstance(e, ast.Constant) and isinstance(e.value, (int, float)):
+            return 0
+        if isinstance(e, ast.Name):
+            if e.id in coef:
+                return 1
+            if e.id in defs:
+                return deg(defs[e.id], depth + 1)
+            return None
+        if isinstance(e, ast.Attribute) and isinstance(e.value, ast.Name) and e.value.id == sn and e.attr in fields:
+            return deg(fields[e.attr], depth + 1)
+        if isinstance(e, ast.UnaryOp):
+            return deg(e.operand, depth + 1)
+        if isinstance(e, ast.Starred):
+            return deg(e.value, depth + 1)
+        if isinstance(e, ast.BinOp):
+            l, r = deg(e.left, depth + 1), deg(e.right, depth + 1)
+            if l is None or r is None:
+                return None
+            if isinstance(e.op, ast.Mult):
+                return l + r
+            if isinstance(e.op, ast.Div):
+                return l - r
+            if isinstance(e.op, (ast.Add, ast.Sub)):
+                return l if l == r else None
+            if isinstance(e.op, ast.Pow) and const_num(e.right) is not None:
+                return l * const_num(e.right)
+            return None
+        if isinstance(e, (ast.Tuple, ast.List)):
+            ds = {deg(x, depth + 1) for x in e.elts}
+            return ds.pop() if len(ds) == 1 else None
+        if isinstance(e, ast.Call):
+            f = e.func
+            if isinstance(f, ast.Name) and f.id in ("Vector", "Point"):
+                ds = {deg(a, depth + 1) for a in e.args}
+                return ds.pop() if len(ds) == 1 else None
+            if isinstance(f, ast.Name) and f.id == "solve":
+                return 0
+            if isinstance(f, ast.Name) and f.id in defs and isinstance(defs[f.id], ast.Call) and txt(defs[f.id].func) == "solve":
+                return 0  # solution(1, 1): a point of the solution set
+            if isinstance(f, ast.Attribute) and f.attr in ("normalized", "unit") and not e.args:
+                return 0 if deg(f.value, depth + 1) is not None else None
+            if isinstance(f, ast.Attribute) and f.attr == "length" and not e.args:
+                return deg(f.value, depth + 1)
+            if isinstance(f, ast.Name) and f.id in ("abs", "float"):
+                return deg(e.args[0], depth + 1) if e.args else None
+            if isinstance(f, ast.Attribute) and f.attr == "sqrt" and e.args:
+                d_ = deg(e.args[0], depth + 1)
+                return None if d_ is None else d_ / 2
+        return None
+
+    if "p" not in fields and not any(k for k in fields):
+        return 0
+    n = 0
+    for fname, v in sorted(fields.items()):
+        tys = {str(t) for t in ctx.types.types_at(gf, v) if not isinstance(t, tuple)}
+        if tys != {"Point"}:
+            continue
+        n += 1
+        d_ = deg(v)
+        if d_ is None:
+            res.note("%s the degree of `%s` in Plane._init_gf is not determined; general form not evaluated" % (gf.where(v), txt(v)[:50]))
+            continue
+        ok = d_ == 0
+        res.ob(rule, gf.where(v), "Plane(a, b, c, d): the stored point is the same for (k a, k b, k c, k d)", ok,
+               "`%s` has degree %s in (a, b, c, d)" % (txt(v)[:50], d_))
+        if not ok:
+            res.violation(rule, gf, v,
+                          "Plane(a, b, c, d) stores the point `%s`, which scales like k^%s when the equation is multiplied by k: (a, b, c, d) and "
+                          "(k a, k b, k c, k d) are the same plane a x + b y + c z = d, so the point lies on it only for one scale (a unit "
+                          "coefficient vector); every membership / distance / intersection with a plane given in general form refers to a "
+                          "displaced parallel plane" % (txt(v)[:50], d_), construct="Plane._init_gf: stored point of degree %s" % d_)
     return n
